@@ -26,6 +26,7 @@ CONSTANTS LeafMax, InnerMax,   \* leaf_slotmax, inner_slotmax
                                \*   "no_lastkey_to_grandparent"  a last-key update handed up by a child is not stored in the parent's separator
                                \*   "no_prev_fix"         split_leaf_node does not repair prev_leaf of the successor leaf
                                \*   "no_free_on_merge"    the node emptied by a merge is unlinked but not freed
+                               \*   "bulk_leaf_capacity"  bulk_load sizes the inner levels >= 2 with the leaf capacity
 
 LeafMin == LeafMax \div 2
 InnerMin == InnerMax \div 2
@@ -312,9 +313,58 @@ DoEraseIter(tr0, p) ==
     IN [tr |-> IF r.found THEN [r.tr EXCEPT !.size = @ - 1] ELSE r.tr, found |-> r.found, key |-> k]
 
 (***************************************************************************)
+(* bulk_load(sorted range) into an empty tree: leaves filled evenly, then   *)
+(* one level of inner nodes after the other                                 *)
+(***************************************************************************)
+CeilDiv(a, b) == (a + b - 1) \div b
+\* n items over p nodes, node i gets remaining / (p - i)
+RECURSIVE Groups(_, _)
+Groups(rem, p) == IF p = 0 THEN <<>> ELSE <<rem \div p>> \o Groups(rem - rem \div p, p - 1)
+RECURSIVE Starts(_, _)
+Starts(sizes, from) == IF sizes = <<>> THEN <<>> ELSE <<from>> \o Starts(Tail(sizes), from + Head(sizes))
+
+\* one level of inner nodes over `kids` = sequence of [id, maxkey]; ids from `firstId` on; returns [nodes (function on the new ids), up (sequence of [id, maxkey])]
+InnerLevel(kids, level, firstId, P) ==
+    LET sizes == Groups(Len(kids), P)
+        starts == Starts(sizes, 0)
+        Mk(i) == LET mine == SubSeq(kids, starts[i] + 1, starts[i] + sizes[i]) IN
+                 [level |-> level, keys |-> [j \in 1 .. Len(mine) - 1 |-> mine[j].maxkey], kids |-> [j \in 1 .. Len(mine) |-> mine[j].id], prev |-> Null, next |-> Null]
+    IN [nodes |-> [id \in firstId .. firstId + P - 1 |-> Mk(id - firstId + 1)],
+        up |-> [i \in 1 .. P |-> [id |-> firstId + i - 1, maxkey |-> kids[starts[i] + sizes[i]].maxkey]]]
+
+RECURSIVE BuildUp(_, _, _, _)
+BuildUp(nodes, kids, level, inner) ==      \* -> [nodes, root, inner]
+    IF Len(kids) = 1 THEN [nodes |-> nodes, root |-> kids[1].id, inner |-> inner]
+    ELSE LET cap == IF Mutation = "bulk_leaf_capacity" /\ level >= 2 THEN LeafMax + 1 ELSE InnerMax + 1
+             P == CeilDiv(Len(kids), cap)
+             firstId == Cardinality(DOMAIN nodes) + 1
+             lv == InnerLevel(kids, level, firstId, P)
+         IN BuildUp(lv.nodes @@ nodes, lv.up, level + 1, inner + P)
+
+DoBulkLoad(ks) ==
+    IF ks = <<>> THEN EmptyTree
+    ELSE LET n == Len(ks)
+             L == CeilDiv(n, LeafMax)
+             sizes == Groups(n, L)
+             starts == Starts(sizes, 0)
+             leaves == [id \in 1 .. L |-> [level |-> 0, keys |-> SubSeq(ks, starts[id] + 1, starts[id] + sizes[id]), kids |-> <<>>,
+                                           prev |-> IF id = 1 THEN Null ELSE id - 1, next |-> IF id = L THEN Null ELSE id + 1]]
+             up == [id \in 1 .. L |-> [id |-> id, maxkey |-> ks[starts[id] + sizes[id]]]]
+             b == BuildUp(leaves, up, 1, 0)
+         IN [nodes |-> b.nodes, root |-> b.root, head |-> 1, tail |-> L, leaves |-> L, inner |-> b.inner, size |-> n, how |-> {"bulk_load"}]
+
+(***************************************************************************)
 (* The state machine                                                       *)
 (***************************************************************************)
 Init == t = EmptyTree /\ bag = [k \in Keys |-> 0] /\ last = <<"init", 0, FALSE, {}>>
+
+\* alternative start: the tree bulk-loaded with the first n keys (each once); histories then continue with insert / erase
+SortedKeys == LET RECURSIVE Asc(_) Asc(S) == IF S = {} THEN <<>> ELSE LET k == CHOOSE x \in S : \A y \in S : x <= y IN <<k>> \o Asc(S \ {k}) IN Asc(Keys)
+BulkInit == \E n \in 0 .. Cardinality(Keys) :
+                /\ t = DoBulkLoad(SubSeq(SortedKeys, 1, n))
+                /\ bag = [k \in Keys |-> IF \E i \in 1 .. n : SortedKeys[i] = k THEN 1 ELSE 0]
+                /\ last = <<"bulk_load", n, TRUE, {"bulk_load"}>>
+
 
 Insert(k) ==
     /\ bag[k] < MaxMult
@@ -338,6 +388,9 @@ EraseIter(p) ==
 
 Next == (\E k \in Keys : Insert(k) \/ EraseOne(k)) \/ (\E p \in 0 .. t.size - 1 : EraseIter(p))
 Spec == Init /\ [][Next]_vars
+BulkSpec == BulkInit /\ [][Next]_vars
+\* bulk load only (no further calls): for checking large n cheaply
+BulkOnlySpec == BulkInit /\ [][UNCHANGED vars]_vars
 
 (***************************************************************************)
 (* Properties: the clauses of C02, and the contents (C01)                  *)
